@@ -10,6 +10,7 @@ import (
 	"verif/mc/core"
 	"verif/mc/props/c08"
 	"verif/mc/props/c09"
+	"verif/mc/props/c12"
 	"verif/mc/rs"
 	"verif/mc/typed"
 )
@@ -60,6 +61,13 @@ func main() {
 			r.Rule("every root type of the schema families × both levels: the conforming tree of every typed value and every single local mutation of it at every position (entry/element dropped, duplicated adjacent and at the end with same and different value, renamed to every name the schema mentions incl. the other level's name, added, swapped; value retyped to every other kind, nulled, int→uint64>int64; strings replaced by every schema name, with delimiters added; lists extended/truncated) × routes {AssembleEntry, AssembleKey+AssembleValue, relaxed dag-cbor decode of a raw encoding so that duplicate keys reach the assembler} × engines; accepted ⇔ the reference acceptance relation, rejection by error never panic, accepted value = reference typed value. Non-trivial = mutated inputs; distinct by (type, level, route, input).")
 			r.Assume("reference acceptance relations mc/rs AcceptType/AcceptRepr")
 			c09.Run(r, engines(), fams, false)
+		}
+	case "C12":
+		c12.TypedEngines = engines
+		if replay {
+			c12.Replay(r, rf.Case)
+		} else {
+			c12.Main(r)
 		}
 	case "C13":
 		if replay {
